@@ -15,6 +15,7 @@ import (
 
 // connState is the monitor's per-connection record (stored as the Conn's context).
 type connState struct {
+	traffics   int64 // first: 64-bit atomics need 8-byte alignment on 32-bit platforms
 	tok        int64
 	key        uint64 // addrKey of the peer-identifying address
 	c          gnet.Conn
@@ -25,7 +26,6 @@ type connState struct {
 	state      int32 // 0 new, 1 open, 2 closed
 	opens      int32
 	closes     int32
-	traffics   int64
 	afterClose int32
 	closeErr   error
 	closeSeq   int64
